@@ -35,8 +35,8 @@ func NewParser(data []byte) *Parser {
 // Parse parses the content stream and returns all operations in order.
 func (p *Parser) Parse() ([]Operation, error) {
 	for p.pos < len(p.data) {
-		// Skip whitespace
-		p.skipWhitespace()
+		// Skip whitespace and comments
+		p.skipWhitespaceAndComments()
 
 		if p.pos >= len(p.data) {
 			break
@@ -59,8 +59,8 @@ var operandStack []core.Object
 func (p *Parser) parseNext() error {
 	start := p.pos
 
-	// Skip whitespace
-	p.skipWhitespace()
+	// Skip whitespace and comments
+	p.skipWhitespaceAndComments()
 	if p.pos >= len(p.data) {
 		return nil
 	}
@@ -122,7 +122,7 @@ func (p *Parser) parseOperator() error {
 // parseOperand parses a single operand, which can be a number, string, name,
 // array, dictionary, boolean, or null.
 func (p *Parser) parseOperand() (core.Object, error) {
-	p.skipWhitespace()
+	p.skipWhitespaceAndComments()
 
 	if p.pos >= len(p.data) {
 		return nil, fmt.Errorf("unexpected end of stream")
@@ -426,7 +426,7 @@ func (p *Parser) parseArray() (core.Object, error) {
 	var arr core.Array
 
 	for p.pos < len(p.data) {
-		p.skipWhitespace()
+		p.skipWhitespaceAndComments()
 
 		if p.pos >= len(p.data) {
 			return nil, fmt.Errorf("unclosed array")
@@ -458,7 +458,7 @@ func (p *Parser) parseDict() (core.Object, error) {
 	dict := make(core.Dict)
 
 	for p.pos < len(p.data) {
-		p.skipWhitespace()
+		p.skipWhitespaceAndComments()
 
 		if p.pos+1 < len(p.data) && p.data[p.pos] == '>' && p.data[p.pos+1] == '>' {
 			p.pos += 2
@@ -496,6 +496,26 @@ func (p *Parser) parseDict() (core.Object, error) {
 func (p *Parser) skipWhitespace() {
 	for p.pos < len(p.data) && isWhitespace(p.data[p.pos]) {
 		p.pos++
+	}
+}
+
+// skipWhitespaceAndComments advances past white space and comments between
+// tokens. A comment starts with '%' outside a string and runs to the end of the
+// line; it is equivalent to a single white-space character (ISO 32000-1, 7.2.3).
+func (p *Parser) skipWhitespaceAndComments() {
+	for p.pos < len(p.data) {
+		c := p.data[p.pos]
+		if isWhitespace(c) {
+			p.pos++
+			continue
+		}
+		if c == '%' {
+			for p.pos < len(p.data) && p.data[p.pos] != '\n' && p.data[p.pos] != '\r' {
+				p.pos++
+			}
+			continue
+		}
+		return
 	}
 }
 
